@@ -9,6 +9,7 @@ CONSTANTS
   ExplEnd = {FALSE}
   Versions = {"N"}
   TagSets = {"N"}
+  TagSets2 = {"same"}
   Canon = {FALSE}
   Unicode = {FALSE}
   Apis = {"dump"}
@@ -21,6 +22,9 @@ CONSTANTS
   Anchors = FALSE
   ExplicitTags = FALSE
   TagIds = {}
+  InnerAnchors = FALSE
+  Share = FALSE
+  NodeBudget = FALSE
   MaxEvents = 6
   MaxDepth = 3
   MaxDocs = 1
@@ -34,5 +38,6 @@ INVARIANT HF
 INVARIANT HG
 INVARIANT HA
 INVARIANT HT
+INVARIANT HR
 INVARIANT EntriesConsistent
 INVARIANT Complete
